@@ -1,5 +1,58 @@
+//! rv-ident: runtime monitors for identifier / key / signature primitives.
+//!   C16 database key mapping reversible & order preserving
+//!   C28 addresses / non-fungible ids text forms
+//!   C37 resource assertions accept exactly the balances they describe (pure half)
+//!   C48 signature primitives
+mod bech;
+mod c16;
+mod c28;
+mod c37;
+mod c48;
+
 fn main() {
     let args = rv_common::parse_args();
-    eprintln!("no check named {}", args.prop);
-    std::process::exit(2);
+    let code = match args.prop.as_str() {
+        "C16" => c16::run(&args),
+        "C28" => c28::run(&args),
+        "C37" => c37::run(&args),
+        "C48" => c48::run(&args),
+        _ => {
+            eprintln!("no check named {}", args.prop);
+            2
+        }
+    };
+    std::process::exit(code);
+}
+
+/// Shared replay helper: loads the replay document and returns its `detail`.
+pub fn load_replay_detail(path: &std::path::Path) -> serde_json::Value {
+    let text = std::fs::read_to_string(path).unwrap_or_else(|e| {
+        eprintln!("cannot read replay file {}: {e}", path.display());
+        std::process::exit(2)
+    });
+    let doc: serde_json::Value = serde_json::from_str(&text).unwrap_or_else(|e| {
+        eprintln!("replay file is not JSON: {e}");
+        std::process::exit(2)
+    });
+    doc.get("detail").cloned().unwrap_or(serde_json::Value::Null)
+}
+
+/// Runs a single-case checker on a throw-away shard and prints what it reports.
+pub fn replay_with<F: FnOnce(&mut rv_common::Shard)>(prop: &str, f: F) -> i32 {
+    let mut shard = rv_common::Shard::new(
+        0,
+        prop,
+        rv_common::Tier::Quick,
+        std::time::Instant::now() + std::time::Duration::from_secs(3600),
+    );
+    f(&mut shard);
+    if shard.violations.is_empty() {
+        println!("REPLAY property={prop} result=no-violation (case no longer violates)");
+        0
+    } else {
+        for v in &shard.violations {
+            println!("REPLAY property={prop} result=still-violates signature={} detail={}", v.signature, v.detail);
+        }
+        1
+    }
 }
